@@ -5,13 +5,15 @@
 // is already cancelled; only the loop body is skipped then) and leaves C registered in the binding thread's list.
 //
 // program text:
-//   cfg par=<2..4> ext=<0..2> top=<1..3> [witness=1]
+//   cfg par=<2..4> ext=<0..2> top=<1..3>
 //   b <unit> <op> ...      builder unit; units 0..top-1 are the tasks of the outer task_group (context 0, a root)
 //      W<k>                     k decision points of work
 //      N<c>:<kind>:<del>:<u>[,<u>...]   create context c (kind 1 bound / 0 isolated), parallel_for(simple, grain 1) over the sub-units
 //                               under it; del 1: the builder deletes c after the loop, del 2: an x thread deletes it, 0: kept
 //      K<up>                    cancel_group_execution() on the up-th enclosing context of the running unit (0 = own)
-//   x <e> <op> ...         extra external thread:  W<k> | K<c> cancel context c once it is bound | D<c> delete c once its loop returned
+//      Z<c>:<kind>:<del>:<u>..  like N, but c is cancelled by its creator before its first use (must stay cancelled, loop body must not run)
+//   x <e> <op> ...         extra external thread:  W<k> | K<c> cancel context c once it is bound | k<c> cancel c as soon as the object exists (races with its
+//                          own first use) | D<c> delete c once its loop returned
 // Oracle (after the outer wait returned, all x threads returned, quiescence): see judge().
 #include "oneapi/tbb/task_group.h"
 #include "oneapi/tbb/parallel_for.h"
@@ -26,34 +28,38 @@ static const int MAXC = 12;
 
 // ------------------------------------------------------------------ generator
 struct GCtx { int id, depth; bool leaf = true; int del = 0; bool xtarget = false; };
-struct GenSt { Src& s; int next_unit, next_ctx; std::vector<std::pair<int, std::string>> lines; std::vector<GCtx> ctxs; bool any_cancel = false; };
+struct GenSt { Src& s; int next_unit, next_ctx, max_ctx; std::vector<std::pair<int, std::string>> lines; std::vector<GCtx> ctxs; bool any_cancel = false; };
 // the text of a unit is assembled with placeholders "@<c>@" for the del field of context c (decided after the x scripts)
 static void gen_unit(GenSt& g, int uid, int depth /* number of generated contexts enclosing this unit */, int encl /* enclosing generated ctx or 0 */) {
     std::string o;
     int nops = g.s.range(1, 3);
     for (int k = 0; k < nops; k++) {
-        bool can_new = depth < 4 && g.next_ctx < MAXC;
-        uint32_t c = g.s.weighted({ can_new ? 6u : 0u, 2, 2 });
+        bool can_new = depth < 4 && g.next_ctx <= g.max_ctx;
+        uint32_t c = g.s.weighted({ can_new ? 6u : 0u, 3, 1 });
         if (!can_new && c == 0) c = 1;
         if (c == 0) {
             int id = g.next_ctx++; int kind = g.s.coin(6) ? 0 : 1; int nsub = 1 + (int)g.s.weighted({ 4, 3, 1 });
-            GCtx gc; gc.id = id; gc.depth = depth + 1; g.ctxs.push_back(gc);
+            bool pre = g.s.coin(10);      // cancelled by its creator before the first use: must stay cancelled, its loop must not run
+            GCtx gc; gc.id = id; gc.depth = depth + 1; gc.xtarget = pre; g.ctxs.push_back(gc); if (pre) { nsub = 1; g.any_cancel = true; }
             if (encl > 0) for (auto& x : g.ctxs) if (x.id == encl) x.leaf = false;
-            o += " N" + std::to_string(id) + ":" + std::to_string(kind) + ":@" + std::to_string(id) + "@:";
+            o += std::string(pre ? " Z" : " N") + std::to_string(id) + ":" + std::to_string(kind) + ":@" + std::to_string(id) + "@:";
             std::vector<int> subs;
             for (int i = 0; i < nsub; i++) { int u = g.next_unit++; subs.push_back(u); o += (i ? "," : "") + std::to_string(u); }
-            for (int u : subs) gen_unit(g, u, depth + 1, id);
+            for (int u : subs) { if (pre) g.lines.push_back({ u, " W1" }); else gen_unit(g, u, depth + 1, id); }
         } else if (c == 1) o += " W" + std::to_string(g.s.range(1, 6));
         else { o += " K" + std::to_string(g.s.range(0, std::min(depth, 3))); g.any_cancel = true; }
     }
     g.lines.push_back({ uid, o });
 }
 std::string h_gen(Src& s) {
-    bool witness = drv_flag("--witness");
+    if (drv_flag("--witness2")) {     // known finding: a cancel issued on a context before its first use is overwritten when the context binds below a parent that has a parent
+        return "cfg par=2 ext=1 top=1 witness=2\nb 0 N1:1:0:1\nb 1 W" + std::to_string(s.range(1, 3)) + " N2:1:0:2\nb 2 Z3:1:0:3\nb 3 W1\nx 0 W1\n";
+    }
     int par = 2 + (int)s.weighted({ 2, 3, 2 });
     int top = 1 + (int)s.weighted({ 3, 4, 2 });
     int ext = 1 + (int)s.weighted({ 5, 3 });   // at least one x thread: cancels concurrent with binds
-    GenSt g{ s, top, 1, {}, {} };
+    static const int budgets[] = { 4, 3, 6, 8, 11 };
+    GenSt g{ s, top, 1, budgets[s.choose(5)], {}, {} };
     for (int u = 0; u < top; u++) gen_unit(g, u, 0, 0);
     if (g.ctxs.empty()) { g.lines.clear(); g.next_unit = top; g.next_ctx = 1; GCtx gc; gc.id = 1; gc.depth = 1; g.ctxs.push_back(gc); g.next_ctx = 2; g.lines.push_back({ 0, " N1:1:@1@:" + std::to_string(top) }); g.lines.push_back({ top, " W1" }); for (int u = 1; u < top; u++) g.lines.push_back({ u, " W1" }); }
     // x scripts: cancels of generated targets (duplicates wanted), waits
@@ -68,13 +74,13 @@ std::string h_gen(Src& s) {
                 int t; if (last_t >= 0 && s.coin(3)) t = last_t; else t = g.ctxs[s.choose((uint32_t)g.ctxs.size())].id;
                 // prefer targets that have something below them
                 if (g.ctxs[(size_t)t - 1].leaf && s.flip()) t = g.ctxs[s.choose((uint32_t)g.ctxs.size())].id;
-                last_t = t; g.ctxs[(size_t)t - 1].xtarget = true; xs[(size_t)e] += " K" + std::to_string(t); has_k = true;
+                last_t = t; g.ctxs[(size_t)t - 1].xtarget = true; xs[(size_t)e] += (s.coin(3) ? " k" : " K") + std::to_string(t); has_k = true;
             } else xs[(size_t)e] += " W" + std::to_string(s.range(1, 12));
         }
     }
     // destruction of leaf contexts nobody else may touch
     for (auto& c : g.ctxs) if (c.leaf && !c.xtarget) { c.del = (int)s.weighted({ 4, 1, 2 }); if (c.del == 2) xs[s.choose((uint32_t)ext)] += " D" + std::to_string(c.id); }
-    std::string o = "cfg par=" + std::to_string(par) + " ext=" + std::to_string(ext) + " top=" + std::to_string(top) + (witness ? " witness=1" : "") + "\n";
+    std::string o = "cfg par=" + std::to_string(par) + " ext=" + std::to_string(ext) + " top=" + std::to_string(top) + "\n";
     std::sort(g.lines.begin(), g.lines.end());
     for (auto& l : g.lines) {
         std::string t = l.second;
@@ -91,13 +97,13 @@ struct Ctx {
     tbb::task_group_context* p = nullptr; bool created = false, deleted = false, ready = false, done = false; int kind = 1;
     int bparent = -1 /* expected parent along the bound chain */, eparent = -1 /* context of the creating unit */, bind_thread = -1;
     uint64_t t0 = 0, t1 = 0;    // the bind happened inside [t0,t1]
-    bool body_ran = false;
+    bool body_ran = false, precancel = false;
 };
 struct CancelRec { int target; uint64_t inv, ret; bool res; int thread; };
 static std::vector<std::vector<Op>> B; static std::vector<std::vector<Op>> X;
 static Ctx C[MAXC + 1]; static std::vector<CancelRec> K; static bool builders_done = false, g_witness = false;
 static thread_local int cur_ctx = -1;
-static long n_skipped_units = 0, n_units_run = 0;
+static long n_skipped_units = 0, n_units_run = 0, n_early_cancel = 0;
 
 static void do_cancel(int t) {
     CancelRec r; r.target = t; r.thread = vs_self(); r.inv = vs_now();
@@ -105,24 +111,30 @@ static void do_cancel(int t) {
     r.ret = vs_now(); K.push_back(r);
 }
 static void run_unit(int u, int ctx);
-static void mark_ready(int c) { if (!C[c].ready) { C[c].ready = true; C[c].t1 = vs_now(); } }
+// The harness publishes "c is bound" through plain memory, which the TSO sub-model does not buffer, while the binder's relaxed
+// store of the inherited flag is buffered: a real x86 drains FIFO, so publish only after a fence (drains the simulated buffer).
+static void mark_ready(int c) { if (!C[c].ready) { if (vs_tso_on) std::atomic_thread_fence(std::memory_order_seq_cst); C[c].ready = true; C[c].t1 = vs_now(); } }
 static void run_ops(int u) {
     for (auto& op : B[(size_t)u]) {
         switch (op.c) {
         case 'W': vs_work(op.a); break;
         case 'K': { int t = cur_ctx; for (int i = 0; i < op.a && C[t].eparent >= 0; i++) t = C[t].eparent; do_cancel(t); break; }
-        case 'N': {
+        case 'N': case 'Z': {
             int c = op.a; Ctx& x = C[c];
             if (x.created) vs_inconclusive("BAD-CASE", "context %d created twice", c);
             x.kind = op.kind; x.eparent = cur_ctx; x.bparent = op.kind ? cur_ctx : -1; x.bind_thread = vs_self();
             x.p = new tbb::task_group_context(op.kind ? tbb::task_group_context::bound : tbb::task_group_context::isolated);
-            x.created = true; x.t0 = vs_now();
+            if (vs_tso_on) std::atomic_thread_fence(std::memory_order_seq_cst);      // the constructor's stores are visible before the harness publishes the object
+            x.created = true;
+            if (op.c == 'Z') { x.precancel = true; do_cancel(c); if (!x.p->is_group_execution_cancelled()) vs_violation("CANCEL-NO-EFFECT", "context %d not cancelled right after cancel_group_execution", c); }
+            x.t0 = vs_now();
             const std::vector<int>* subs = &op.subs;
             tbb::parallel_for(tbb::blocked_range<int>(0, (int)subs->size(), 1), [c, subs](const tbb::blocked_range<int>& r) {
                 mark_ready(c); C[c].body_ran = true;
                 for (int i = r.begin(); i < r.end(); i++) run_unit((*subs)[(size_t)i], c);
             }, tbb::simple_partitioner(), *x.p);
             mark_ready(c); x.done = true;
+            if (x.precancel && x.body_ran) vs_violation("CANCEL-BEFORE-BIND-LOST", "context %d was cancelled (cancel_group_execution returned %s) before its first use, yet the loop run under it executed its body", c, "true/false");
             if (op.del == 1) { delete x.p; x.deleted = true; }
             break; }
         }
@@ -134,13 +146,22 @@ static void x_thread(void* p) {
     for (auto& op : X[(size_t)e]) {
         if (op.c == 'W') vs_work(op.a);
         else if (op.c == 'K') { int t = op.a; vs_block_until([t] { return C[t].ready || builders_done; }); if (C[t].ready && !C[t].deleted) do_cancel(t); }
+        else if (op.c == 'k') { int t = op.a; vs_block_until([t] { return C[t].created || builders_done; }); if (C[t].created && !C[t].deleted) { if (!C[t].ready) n_early_cancel++; do_cancel(t); } }
         else if (op.c == 'D') { int t = op.a; vs_block_until([t] { return C[t].done || builders_done; }); if (C[t].done && !C[t].deleted) { delete C[t].p; C[t].deleted = true; } }
     }
 }
 static bool targeted(int c) { for (auto& k : K) if (k.target == c) return true; return false; }
 
+static std::string dump() {
+    std::string o = "cancels:"; char b[128];
+    for (auto& k : K) { snprintf(b, sizeof b, " ctx%d@[%lu,%lu]=%d(t%d)", k.target, (unsigned long)k.inv, (unsigned long)k.ret, (int)k.res, k.thread); o += b; }
+    o += " binds:";
+    for (int c = 1; c <= MAXC; c++) if (C[c].created) { snprintf(b, sizeof b, " %d->%d@[%lu,%lu](t%d)%s", c, C[c].bparent, (unsigned long)C[c].t0, (unsigned long)C[c].t1, C[c].bind_thread, C[c].deleted ? "del" : ""); o += b; }
+    return o;
+}
 static void judge(bool r0_reset_expected) {
     long n_live = 0, n_cancelled = 0, n_inherit = 0, n_overlap = 0, n_overlap_deep = 0, n_cross = 0, n_excluded = 0, n_dup_race = 0, n_destroyed = 0;
+    bool tainted[MAXC + 1] = {};      // ids are handed out parent-first, so a parent is judged before its children
     for (int c = 0; c <= MAXC; c++) {
         Ctx& x = C[c]; if (!x.created) continue;
         if (x.deleted) { n_destroyed++; continue; }
@@ -161,13 +182,37 @@ static void judge(bool r0_reset_expected) {
         bool cross = x.bparent >= 0 && C[x.bparent].bind_thread != x.bind_thread; if (cross) n_cross++;
         if (expect && src != c && !x.body_ran) n_inherit++;
         if (expect && !actual) {
-            // Known finding (kept out of the default domain, counted): the binder's fall-back takes the_context_state_propagation_mutex,
-            // the propagator holds cancellation_disseminator::my_threads_list_mutex -- a context bound in another thread's list
-            // than its parent while a cancellation from a grand-ancestor is being propagated can miss it.
-            bool shape = ov_deep && cross && !targeted(x.bparent);
-            if (shape && !g_witness) { n_excluded++; continue; }
-            vs_violation("MISSED-DESCENDANT", "context %d (bound parent %d, bound by thread %d, parent bound by thread %d) is not cancelled although its ancestor %d was the target of cancel_group_execution (bind in [%lu,%lu])",
-                         c, x.bparent, x.bind_thread, x.bparent >= 0 ? C[x.bparent].bind_thread : -1, src, (unsigned long)x.t0, (unsigned long)x.t1);
+            // Diagnosis only (these four shapes were genuine defects of bind_to_impl/propagate, fixed in /repo by "fix: a task_group_context bound during
+            // a concurrent cancellation could miss it"; they are part of the default domain and every miss is a violation).  The kind names the window:
+            //  DEEP      winning cancel of a grand-ancestor overlaps the bind (binder's fall-back re-copy must be serialized with the propagation);
+            //  ROOT      parent without a parent: the copy after registration must not overwrite the propagator's painting;
+            //  FALLBACK  same lost update in the fall-back re-copy when a second propagation forced the fall-back;
+            //  HINT      (TSO) may_have_children store still buffered when the parent's flag is read speculatively;
+            //  INHERITED the parent is itself such a miss.   Anything else: MISSED-DESCENDANT.
+            const char* why = nullptr; int P = x.bparent;
+            if (P >= 0 && tainted[P]) why = "BIND-RACE-INHERITED";
+            else if (P >= 0) {
+                bool ok = true, any = false;
+                for (auto& k : K) if (k.res) {
+                    int lv = 0, a = c; for (; a >= 0 && a != k.target; a = C[a].bparent) lv++;
+                    if (a < 0) continue;
+                    any = true;
+                    if (lv == 0 || !(k.inv <= x.t1 && x.t0 <= k.ret)) { ok = false; break; }
+                    if (lv >= 2) why = "BIND-RACE-DEEP";
+                    else if (C[P].bparent < 0) why = "BIND-RACE-ROOT";
+                    else {
+                        bool other = false, first = true;
+                        for (auto& k2 : K) if (&k2 != &k && k2.res && k2.inv <= x.t1 && x.t0 <= k2.ret) other = true;
+                        for (int sb = 1; sb <= MAXC; sb++) if (sb != c && C[sb].created && C[sb].bparent == P && C[sb].t1 < k.inv) first = false;
+                        if (other) why = "BIND-RACE-FALLBACK"; else if (vs_tso_on && first) why = "BIND-RACE-HINT";
+                    }
+                }
+                if (!ok || !any) why = nullptr;
+            }
+            if (src == c) for (auto& k : K) if (k.target == c && k.res && k.inv <= x.t1) why = "CANCEL-BEFORE-BIND-LOST";     // cancelled before / while it was bound
+            if (why) tainted[c] = true;
+            vs_violation(why ? why : "MISSED-DESCENDANT", "context %d (bound parent %d, bound by thread %d, parent bound by thread %d) is not cancelled although its ancestor %d was the target of cancel_group_execution (bind in [%lu,%lu]); %s",
+                         c, x.bparent, x.bind_thread, x.bparent >= 0 ? C[x.bparent].bind_thread : -1, src, (unsigned long)x.t0, (unsigned long)x.t1, dump().c_str());
         }
         if (!expect && actual)
             vs_violation("SPURIOUS-CANCEL", "context %d (kind %s, bound parent %d) is cancelled but neither it nor any ancestor along the bound chain was a cancel target", c, x.kind ? "bound" : "isolated", x.bparent);
@@ -185,8 +230,9 @@ static void judge(bool r0_reset_expected) {
     vs_stat_add("n_bind_overlap_deep", n_overlap_deep); vs_stat_add("n_cross_thread_bind", n_cross); vs_stat_add("n_inherit_at_bind", n_inherit); vs_stat_add("n_destroyed", n_destroyed);
     vs_stat_add("n_excluded", n_excluded); vs_stat_add("n_units", n_units_run);
     if (n_overlap) vs_stat_flag("bind_overlaps_propagation"); if (n_overlap_deep) vs_stat_flag("bind_overlaps_grandancestor_propagation"); if (n_cross) vs_stat_flag("cross_thread_bind");
-    if (n_inherit) vs_stat_flag("inherited_at_bind"); if (n_dup_race) vs_stat_flag("concurrent_cancels_one_target"); if (n_destroyed) vs_stat_flag("leaf_destroyed"); if (n_excluded) vs_stat_flag("excluded_known_bind_race");
+    if (n_inherit) vs_stat_flag("inherited_at_bind"); if (n_dup_race) vs_stat_flag("concurrent_cancels_one_target"); if (n_destroyed) vs_stat_flag("leaf_destroyed");
     if (n_cross && n_overlap) vs_stat_flag("cross_thread_bind_overlap");
+    { long npre = 0; for (int c = 1; c <= MAXC; c++) if (C[c].precancel) npre++; if (npre) vs_stat_flag("cancelled_before_first_use"); if (n_early_cancel) vs_stat_flag("cancel_races_own_bind"); vs_stat_add("n_early_cancel", n_early_cancel + npre); }
     vs_stat_add("nt", n_overlap > 0 ? 1 : 0);
 }
 
@@ -199,17 +245,17 @@ void h_run(Case& c) {
             size_t id = (size_t)atoi(w[1].c_str()); auto& V = w[0] == "b" ? B : X; if (V.size() <= id) V.resize(id + 1);
             for (size_t i = 2; i < w.size(); i++) {
                 Op op; op.c = w[i][0]; const char* s = w[i].c_str() + 1;
-                if (op.c == 'N') {
+                if (op.c == 'N' || op.c == 'Z') {
                     int a = 0, k = 1, d = 0, n = 0; if (sscanf(s, "%d:%d:%d:%n", &a, &k, &d, &n) < 3) vs_inconclusive("BAD-CASE", "bad op %s", w[i].c_str());
                     op.a = a; op.kind = k; op.del = d; if (a < 1 || a > MAXC) vs_inconclusive("BAD-CASE", "bad context id %d", a);
                     for (const char* q = s + n; *q;) { op.subs.push_back(atoi(q)); while (*q && *q != ',') q++; if (*q == ',') q++; }
                     if (op.subs.empty()) vs_inconclusive("BAD-CASE", "N without sub-units");
-                } else { op.a = atoi(s); if ((op.c == 'K' || op.c == 'D') && w[0] == "x" && (op.a < 1 || op.a > MAXC)) vs_inconclusive("BAD-CASE", "bad target"); }
+                } else { op.a = atoi(s); if ((op.c == 'K' || op.c == 'k' || op.c == 'D') && w[0] == "x" && (op.a < 1 || op.a > MAXC)) vs_inconclusive("BAD-CASE", "bad target"); }
                 V[id].push_back(op);
             }
         }
     }
-    for (auto& b : B) for (auto& op : b) if (op.c == 'N') for (int u : op.subs) if (u < 0 || (size_t)u >= B.size()) vs_inconclusive("BAD-CASE", "unit %d missing", u);
+    for (auto& b : B) for (auto& op : b) if (op.c == 'N' || op.c == 'Z') for (int u : op.subs) if (u < 0 || (size_t)u >= B.size()) vs_inconclusive("BAD-CASE", "unit %d missing", u);
     if ((int)B.size() < top) B.resize((size_t)top);
     X.resize((size_t)ext); K.reserve(64);
     vs_begin(c.sched.c_str());
